@@ -190,8 +190,14 @@ def run(tier, seed):
                     f.write("mov rax, 0x2a\nret\n")
                 os.chmod(pth, mode)
             os.chmod(pd, 0o755)
+            # is the scratch directory reachable at all for that uid?  (not when the tree lives below a private directory such
+            # as /root: then a failure to open says nothing about the library and the cases are skipped, with a note)
+            import subprocess
+            import sys
+            reach = subprocess.run([sys.executable, "-c", "import os,sys\nos.setgid(65534)\nos.setuid(65534)\nopen(sys.argv[1]).read()", ro],
+                                   stdout=subprocess.DEVNULL, stderr=subprocess.DEVNULL).returncode == 0
             hs = []
-            for pth in (ro, no):
+            for pth in (ro, no) if reach else ():
                 hs.append("u65534\tc256:p:cc\tf%s" % hexec.esc(pth))
                 hs.append("u65534\tc256:p:cc\tn4:%s" % hexec.esc(pth))
             res = hexec.run(hs, variant="wrap", dangerous=True)
@@ -207,7 +213,9 @@ def run(tier, seed):
                 if a.ret != want or (want == 0 and a.hex != "b82a000000c3"):
                     rep.fail({"class": "permission", "what": name}, ["wrong-result"], {"kind": "badpath", "what": name},
                              "%s file under uid nobody: %s" % (name, o))
-            rep.bounds["permission_cases"] = 4
+            rep.bounds["permission_cases"] = 4 if reach else 0
+            if not reach:
+                rep.extra["permission_cases"] = "skipped: the scratch directory %s is not reachable for uid 65534" % pd
         # binary output
         line10 = "mov rax, 0x1122334455667788\n"
         for off in (0, 1, 17, 6000, 6001, 12500):
